@@ -14,6 +14,10 @@ M = [
  ("control-repair-type9-selector", "src/messages/standard_aircraft_position_report.rs", "        let (data, radio_status) = parse_radio(data, message_type)?;", "        let (data, cs_selector) = take_bits::<_, u8, _, _>(1u8)(data)?;\n        let (data, radio_status) = match cs_selector {\n            0 => SotdmaMessage::parse(data)?,\n            _ => ItdmaMessage::parse(data)?,\n        };", "none (a REPAIR of known finding D6; pinned test_type9_example fails by design; C16 must exit 0 without a KNOWN-FINDING line) C16 C04 C14 C01"),
  ("control-repair-sentence-type", "src/sentence.rs", "    let (_, message_type) = messages::message_type(ais_data)?;", "    let (_, shifted) = messages::message_type(ais_data)?;\n    let message_type = match ais_data[0] {\n        c @ 48..=87 => c - 48,\n        c @ 96..=119 => c - 56,\n        _ => shifted,\n    };", "none (a REPAIR of known finding D10; four pinned sentence tests fail by design; C19 must exit 0 without a KNOWN-FINDING line) C19 C07 C08 C01"),
  ("control-utc-minute-7-bits", "src/messages/radio_status.rs", "        let (data, _spare) = take_bits::<_, u8, _, _>(1u8)(data)?;\n        let (data, minute) = take_bits(6u8)(data)?;", "        let (data, minute) = take_bits(7u8)(data)?;", "none (benign: the ITU reading of the UTC minute, zone U2; control, must NOT be reported) C16 C01"),
+ ("control-signed-via-shifts", "src/messages/parsers.rs", "    let mask = !0i32 << len;\n    Ok((\n        input,\n        match (num << (32 - len)).leading_zeros() {\n            0 => num | mask,\n            _ => !mask & num,\n        },\n    ))", "    let shift = 32 - len as u32;\n    Ok((input, num.wrapping_shl(shift).wrapping_shr(0) >> shift))", "none (equivalent rewrite of the sign extension with arithmetic shifts; control, must NOT be reported) C10 C11 C04 C01"),
+ ("control-unarmor-table", "src/messages/mod.rs", "        let unarmored = match *byte {\n            48..=87 => byte - 48,\n            96..=119 => byte - 56,", "        let unarmored = match *byte {\n            b'0'..=b'W' => *byte - b'0',\n            b'`'..=b'w' => (*byte - b'`') + 40,", "none (equivalent rewrite of the armoring alphabet; control, must NOT be reported) C03 C14 C01 C18"),
+ ("control-delivery-via-take", "src/sentence.rs", "                let mut data = AisRawData::default();\n                lib::std::mem::swap(&mut data, &mut self.data);\n                ais_sentence.data = data;", "                ais_sentence.data = lib::std::mem::take(&mut self.data);", "none (equivalent: mem::take instead of swap on delivery; control, must NOT be reported) C05 C06 C17 C07 C18"),
+ ("control-trim-order-equivalent", "src/messages/parsers.rs", "                    val.trim_start()\n                        .trim_end_matches('@')\n                        .trim_end()\n                        .to_string(),", "                    val.trim_end_matches('@')\n                        .trim_end()\n                        .trim_start()\n                        .to_string(),", "none (the three trimming steps commute when the leading step is applied last: equivalent; control, must NOT be reported) C13 C14"),
  ("cksum-low-nibble", "src/sentence.rs", "if expected_checksum != received_checksum {", "if expected_checksum & 0x7f != received_checksum & 0x7f {", "C02 C08"),
  ("cksum-bypass-on-continuation", "src/sentence.rs", "        Self::check_checksum(data, checksum)?;\n", "        if ais_sentence.fragment_number <= 1 {\n            Self::check_checksum(data, checksum)?;\n        }\n", "C02"),
  ("cksum-error-fields-swapped", "src/sentence.rs", "                expected: expected_checksum,\n                found: received_checksum,", "                expected: received_checksum,\n                found: expected_checksum,", "C02"),
